@@ -287,7 +287,7 @@ if __name__ == '__main__':
 # C06: from-import / import statements (engine B, run_c06)
 # ---------------------------------------------------------------------------------------------
 IMPORT_NAMES = ['a', 'b', 'c']
-MODULE_SRC = ''.join('{%% macro %s() %%}<%s>{%% endmacro %%}' % (n, n) for n in IMPORT_NAMES) + '{% set v = "MV" %}'
+MODULE_SRC = ''.join('{%% macro %s() %%}<%s>{%% endmacro %%}' % (n, n) for n in IMPORT_NAMES) + '{% set v = "MV" %}{% set w %}MW{% endset %}'
 
 
 def import_family():
@@ -297,7 +297,7 @@ def import_family():
     item_lists = [
         [('a', None)], [('a', 'x')], [('a', 'b')], [('a', 'b'), ('b', 'a')], [('a', 'x'), ('b', None)],
         [('a', None), ('b', 'y'), ('c', None)], [('b', 'a'), ('c', 'b'), ('a', 'c')], [('c', 'x'), ('a', 'y')],
-        [('v', None)], [('v', 'a'), ('a', 'v')],
+        [('v', None)], [('v', 'a'), ('a', 'v')], [('w', None)], [('w', 'x'), ('a', None)],
     ]
     places = [
         ('top', '%s'),
@@ -310,8 +310,8 @@ def import_family():
     out = []
     for items in item_lists:
         stmt = '{%% from "m" import %s %%}' % ', '.join(n if al is None else '%s as %s' % (n, al) for n, al in items)
-        uses = ''.join('[%s=%s]' % (al or n, '{{ %s }}' % (al or n) if n == 'v' else '{{ %s() }}' % (al or n)) for n, al in items)
-        exp = ''.join('[%s=%s]' % (al or n, 'MV' if n == 'v' else '<%s>' % n) for n, al in items)
+        uses = ''.join('[%s=%s]' % (al or n, '{{ %s }}' % (al or n) if n in ('v', 'w') else '{{ %s() }}' % (al or n)) for n, al in items)
+        exp = ''.join('[%s=%s]' % (al or n, 'MV' if n == 'v' else 'MW' if n == 'w' else '<%s>' % n) for n, al in items)
         for pname, tpl in places:
             out.append(dict(kind='from', place=pname, items=items, src=(tpl % (stmt + uses)) + '|END', expected=exp))
     return out
